@@ -98,6 +98,7 @@ where
     I: Interner,
 {
     fn fn_def_variance(&self, fn_def_id: chalk_ir::FnDefId<I>) -> Variances<I> {
+        self.record(fn_def_id);
         self.ws
             .db()
             .unification_database()
@@ -105,6 +106,7 @@ where
     }
 
     fn adt_variance(&self, adt_id: chalk_ir::AdtId<I>) -> Variances<I> {
+        self.record(adt_id);
         self.ws.db().unification_database().adt_variance(adt_id)
     }
 }
@@ -307,6 +309,9 @@ where
     }
 
     fn discriminant_type(&self, ty: Ty<I>) -> Ty<I> {
+        if let TyKind::Adt(adt_id, _) = ty.kind(self.ws.db().interner()) {
+            self.record(*adt_id);
+        }
         self.ws.db().discriminant_type(ty)
     }
 
